@@ -13,6 +13,9 @@ Plain(n) == [i \in 1..n |-> "plain"]
 Faults(op, n) == {NoFault}
     \cup {[kind |-> f, at |-> i, stage |-> ""] : f \in FaultKinds(op), i \in 1..(n + 1)}
     \cup (IF op = "copy" THEN {[kind |-> "hook", at |-> i, stage |-> "copied"] : i \in 1..(n + 1)} ELSE {})
+\* not a fault: the destination already holds a file of that name and length with other bytes (newer mtime)
+Stale == UNION {{[k |-> "up", op |-> op, kind |-> kd, shapes |-> Plain(n), fault |-> [kind |-> "stale", at |-> i, stage |-> ""]] :
+                    i \in 1..(n + 1)} : op \in {"copy", "move"}, kd \in Kinds, n \in 1..MaxN}
 AllPlain == UNION {{[k |-> "up", op |-> op, kind |-> kd, shapes |-> Plain(n), fault |-> f] : f \in Faults(op, n)} :
                       op \in Ops, kd \in Kinds, n \in 0..MaxN}
 OneOdd == UNION {{[k |-> "up", op |-> op, kind |-> kd, shapes |-> [Plain(n) EXCEPT ![i] = sh], fault |-> NoFault] :
@@ -22,5 +25,5 @@ OneOdd == UNION {{[k |-> "up", op |-> op, kind |-> kd, shapes |-> [Plain(n) EXCE
 Partial == UNION {{[k |-> "up", op |-> op, kind |-> kd, shapes |-> [Plain(n) EXCEPT ![i] = sh], fault |-> NoFault, lists |-> li] :
                       i \in 1..n, sh \in {"plain", "dotdot", "abs"}, li \in {"sha256only", "sha1only", "nofiles"}} :
                    op \in Ops, kd \in Kinds, n \in 1..2}
-ASSUME Emit(SetToSeq(AllPlain \cup OneOdd) \o SetToSeq(Partial))
+ASSUME Emit(SetToSeq(AllPlain \cup OneOdd \cup Stale) \o SetToSeq(Partial))
 =============================================================================
